@@ -147,6 +147,20 @@ def check_table(repo: Repo, rep: Report):
         if lp is None:
             continue
         escapes = [x for st in lp.body for x in walk_no_nested(st) if isinstance(x, (ast.Continue, ast.Break, ast.Return))]
+        # a `continue` guarded by a test that excludes builtin names cannot skip eval/exec/compile/open
+        gfn = CFG(fn.node)
+        harmless = []
+        for x in escapes:
+            nd = next((n for n in gfn.nodes if n.ast is x), None)
+            if nd is None or not isinstance(x, ast.Continue):
+                continue
+            for d in gfn.dominators().get(nd.id, ()):
+                b = gfn.nodes[d]
+                if b.kind == "branch" and b.value is True:
+                    parts = b.ast.values if isinstance(b.ast, ast.BoolOp) and isinstance(b.ast.op, ast.And) else [b.ast]
+                    if any(src(p_) in BUILTIN_EXCLUSIONS for p_ in parts):
+                        harmless.append(x)
+        escapes = [x for x in escapes if x not in harmless]
         has_overt = any(sev_of(c) == "OVERTLY_MALICIOUS" for _, c in yields_in(fn))
         if has_overt and not escapes and src(lp.iter) in ("context.pickled.properties.calls", "context.pickled.properties.non_setstate_calls"):
             unconditional.append(cls.name)
